@@ -236,7 +236,7 @@ def resume_from(w, mon, path, case, keys):
         with w.incarnation() as inc:
             s = inc.new_sampler(**over)
             try:
-                s.run(n_total=case["n_total"], progress=False, resume_state_path=path, save_every=case.get("save_every"))
+                s.run(n_total=case.get("resume_n_total", case["n_total"]), progress=False, resume_state_path=path, save_every=case.get("save_every"))
                 out["done"] = True
             except SimHang as e:
                 w.violation(PROP, "O2.no_termination", f"resumed run did not terminate: {e}", **keys)
@@ -251,7 +251,9 @@ def resume_from(w, mon, path, case, keys):
             if out["done"]:
                 if inc.n_commits == 0 and snap["current"].get("beta") is not None:
                     pass
-                oracles.run_postconditions(w, s, case["n_total"], PROP, dict(keys, phase="resumed"))
+                oracles.run_postconditions(w, s, case.get("resume_n_total", case["n_total"]), PROP, dict(keys, phase="resumed", n_total_changed=case.get("resume_n_total", case["n_total"]) != case["n_total"]))
+                if getattr(s, "n_total", None) != case.get("resume_n_total", case["n_total"]):
+                    w.violation(PROP, "O2.n_total", f"after run(n_total={case.get('resume_n_total', case['n_total'])}, resume_state_path=...) the sampler reports n_total={getattr(s, 'n_total', None)}", **keys)
                 d = oracles.diff_state(snap, s.state, prefix_only=rm.len_k)
                 if d:
                     w.violation(PROP, "O2.prefix_changed", "; ".join(d[:3]), **keys)
@@ -453,9 +455,15 @@ def run_case(case):
     if w.escapes:
         raise RuntimeError("seam escape: " + "; ".join(w.escapes))
     # small dumps that fit in the user-space buffer (reach probe)
+    big_seen = {}
     for (i, kind, path, nb) in first["log"]:
         if kind == "write" and nb < 8192 and nb > 11:
             probes["small_dump_single_raw_write"] = probes.get("small_dump_single_raw_write", 0) + 1
+        if kind == "write" and nb >= 65536:
+            big_seen[path] = True
+        elif kind == "write" and nb < 8192 and big_seen.get(path):
+            probes["dump_tail_after_large_frame"] = probes.get("dump_tail_after_large_frame", 0) + 1
+            big_seen[path] = False
     # a violation found with an enumerated fault becomes a directly replayable single-fault case
     for v in violations:
         if "fault" in v:
@@ -486,6 +494,17 @@ def base_case(rnd, seed, arm):
                 progress=progress, stderr=rnd.choice(["stringio", "captured"]) if progress else "stringio",
                 extra_saves=rnd.choice([[], [], ["manual"], ["manual", "manual_again"], ["sm"], ["manual", "sm"]]))
     case.update(ev)
+    if rnd.random() < 0.35:
+        # "resume and extend": the resumed run asks for a different number of effective samples
+        case["resume_n_total"] = rnd.choice([case["n_total"] * 2, case["n_total"] * 4, max(32, case["n_total"] // 2)])
+    if rnd.random() < 0.12:
+        # large checkpoints: the pickled sampler exceeds pickle's 64 KiB frame limit, so the dump ends with a
+        # small tail that sits in CPython's user-space buffer until flush/close (reach probe dump_tail_after_large_frame)
+        case["target"] = gen.gen_target(rnd, kinds=("gauss",), d=6, blobs=0)
+        case["cfg"].update(n_particles=128, clustering=False)
+        case["cfg"].pop("n_max_steps", None)
+        case.update(n_total=512, save_every=rnd.choice([2, 3]), eval="vector", big=True)
+        case.pop("pool", None)
     return case
 
 
@@ -504,7 +523,11 @@ def cases(seed, tier):
     ]
     for k in range(n_enum):
         r = random.Random(sch.np_seed(f"enum{k}"))
-        if k < len(canon):
+        if k == len(canon):
+            tgt = gen.gen_target(r, kinds=("gauss",), d=6, blobs=0)
+            case = dict(arm="crash", seed=sch.np_seed(f"e{k}"), target=tgt, cfg=dict(n_particles=128, clustering=False, sample="rwm", resample="mult", random_state=5), n_total=512, save_every=2,
+                        progress=False, stderr="stringio", extra_saves=[], eval="vector", big=True, enumerate_cap=90)
+        elif k < len(canon):
             c = canon[k]
             tgt = gen.gen_target(r, kinds=("gauss",), d=2, blobs=c["blobs"])
             case = dict(arm="crash", seed=sch.np_seed(f"e{k}"), target=tgt, cfg=c["cfg"], n_total=64, save_every=[2, 1, 3, 2][k], progress=c.get("progress", False),
@@ -574,6 +597,8 @@ def shrink(case):
             yield mod(faults=[dict(f, byte_frac=0)])
     if c.get("reconfig"):
         yield mod(reconfig=None)
+    if c.get("resume_n_total"):
+        yield mod(resume_n_total=None)
 
 
 def evidence(results, cases_, tier):
